@@ -362,3 +362,194 @@ Proof.
   destruct (Descriptor_Unknown d) as [v|]; cbn [dneed res_map osize]; [|discriminate].
   intros H; inversion H; subst. exact (bitlen_enc_unknown v).
 Qed.
+
+(* ---- sizes are non-negative ---- *)
+
+Lemma zlen_nonneg {A} (l : list A) : 0 <= zlen l. Proof. unfold zlen. lia. Qed.
+Lemma sumZ_nonneg {A} (f : A -> Z) l : (forall x, 0 <= f x) -> 0 <= sumZ f l.
+Proof. intros H. induction l as [|x l IH]; [cbn; lia|]. cbn [sumZ fold_right]. unfold sumZ in IH. specialize (H x). lia. Qed.
+Lemma b2z_nonneg b : 0 <= Z.b2z b. Proof. destruct b; cbn; lia. Qed.
+
+Lemma desc_size_nonneg d : 0 <= desc_size d.
+Proof.
+  unfold desc_size.
+  assert (Hs : forall l, 0 <= sumZ size_extended_event_item l).
+  { intros l. apply sumZ_nonneg. intros x. unfold size_extended_event_item. pose proof (zlen_nonneg (DescriptorExtendedEventItem_Description x)).
+    pose proof (zlen_nonneg (DescriptorExtendedEventItem_Content x)). lia. }
+  assert (Hv : forall l, 0 <= sumZ size_vbi_data_service l).
+  { intros l. apply sumZ_nonneg. intros x. unfold size_vbi_data_service. pose proof (zlen_nonneg (DescriptorVBIDataService_Descriptors x)).
+    destruct (spec_is_vbi_line_service _); lia. }
+  repeat match goal with
+  | |- 0 <= (if ?c then _ else _) => destruct c
+  | |- 0 <= zlen _ => apply zlen_nonneg
+  | |- 0 <= osize _ ?o => destruct o as [v|]; cbn [osize]; [|lia]
+  end;
+  unfold size_ac3, size_avc_video, size_component, size_content, size_data_stream_alignment, size_enhanced_ac3,
+    size_extended_event, size_extended_event_items, size_extension, size_supplementary_audio, size_iso639, size_local_time_offset,
+    size_maximum_bitrate, size_network_name, size_parental_rating, size_private_data_indicator, size_private_data_specifier,
+    size_registration, size_service, size_short_event, size_stream_identifier, size_subtitling, size_teletext, size_vbi_data, size_unknown;
+  repeat match goal with
+  | |- context [Z.b2z ?b] => pose proof (b2z_nonneg b); generalize dependent (Z.b2z b); intros
+  | |- context [zlen ?l] => pose proof (zlen_nonneg l); generalize dependent (zlen l); intros
+  | |- context [sumZ size_extended_event_item ?l] => pose proof (Hs l); generalize dependent (sumZ size_extended_event_item l); intros
+  | |- context [sumZ size_vbi_data_service ?l] => pose proof (Hv l); generalize dependent (sumZ size_vbi_data_service l); intros
+  | |- context [match ?o with Some _ => _ | None => _ end] => destruct o
+  | |- context [if ?c then _ else _] => destruct c
+  end; try lia.
+Qed.
+
+(* ---- from bits to bytes ---- *)
+
+Lemma bytes_of_items_zlen a n : items_bytes_ok a -> bitlen a = 8 * n -> zlen (bytes_of_items a) = n.
+Proof.
+  intros Hok Hb. rewrite (chunks_concat a Hok). unfold zlen, bitlen in *.
+  rewrite (bytes_of_bits_length (Z.to_nat n)); lia.
+Qed.
+
+Lemma bytes_of_items_app a b n : items_bytes_ok a -> items_bytes_ok b -> bitlen a = 8 * n ->
+  bytes_of_items (a ++ b) = bytes_of_items a ++ bytes_of_items b.
+Proof.
+  intros Ha Hb Hn. rewrite (chunks_concat _ (items_bytes_ok_app _ _ Ha Hb)), (chunks_concat a Ha), (chunks_concat b Hb).
+  rewrite items_bits_app. apply (bytes_of_bits_app (Z.to_nat n)). unfold bitlen in Hn. lia.
+Qed.
+
+Lemma bits_of_bytes_of_items a n : items_bytes_ok a -> bitlen a = 8 * n -> bits_of_bytes (bytes_of_items a) = items_bits a.
+Proof.
+  intros Hok Hb. rewrite (chunks_concat a Hok). apply (bits_of_bytes_of_bits (Z.to_nat n)). unfold bitlen in Hb. lia.
+Qed.
+
+Lemma items_bytes_ok_app_inv a b : items_bytes_ok (a ++ b) -> items_bytes_ok a /\ items_bytes_ok b.
+Proof. unfold items_bytes_ok. apply Forall_app. Qed.
+
+Lemma bytes_of_two_u8 t c : bytes_of_items [wu8 t; wu8 c] = [t mod 256; c mod 256].
+Proof.
+  rewrite chunks_concat by (repeat constructor). unfold wu8, items_bits. cbn [flat_map item_bits]. rewrite app_nil_r.
+  rewrite bytes_of_bits_8 by apply bits_of_length. rewrite bytes_of_bits_bits_of_8, Z_of_bits_of_mod. reflexivity.
+Qed.
+
+(* ---- one descriptor ---- *)
+
+(* bytes emitted behind the length byte: nothing when the computed length is 0, the whole body otherwise *)
+Definition emitted (d : Descriptor) : Z := if calc_descriptor_length d =? 0 then 0 else desc_size d.
+
+Lemma enc_descriptor_shape d its : enc_descriptor d = Ok its ->
+  exists body, its = [wu8 (Descriptor_Tag d); wu8 (calc_descriptor_length d)] ++ body /\ bitlen body = 8 * emitted d.
+Proof.
+  unfold enc_descriptor, emitted. destruct (calc_descriptor_length d =? 0).
+  - intros H; inversion H; subst. exists []. split; reflexivity.
+  - destruct (enc_descriptor_body d) as [body| |] eqn:E; cbn [res_map]; try discriminate.
+    intros H; inversion H; subst. exists body. split; [reflexivity|]. apply enc_descriptor_body_size. exact E.
+Qed.
+
+(* without uint8 wrap the length byte is the number of body bytes, whatever Descriptor_Length holds *)
+Lemma emitted_nowrap d : desc_size d < 256 -> emitted d = desc_size d /\ calc_descriptor_length d = desc_size d.
+Proof.
+  intros H. pose proof (desc_size_nonneg d). unfold emitted. rewrite calc_descriptor_length_size, Z.mod_small by lia.
+  split; [|reflexivity]. destruct (desc_size d =? 0) eqn:E; lia.
+Qed.
+
+(* with wrap: the length byte is the size modulo 256 and the body is still written in full, except that a
+   size that is a multiple of 256 writes no body at all *)
+Lemma emitted_wrap d : calc_descriptor_length d = desc_size d mod 256 /\
+  emitted d = if desc_size d mod 256 =? 0 then 0 else desc_size d.
+Proof. unfold emitted. rewrite calc_descriptor_length_size. split; reflexivity. Qed.
+
+(* the bytes of one descriptor: tag, length byte, body *)
+Lemma enc_descriptor_bytes d its : enc_descriptor d = Ok its -> items_bytes_ok its ->
+  exists body, bytes_of_items its = [Descriptor_Tag d mod 256; calc_descriptor_length d mod 256] ++ body /\
+               zlen body = emitted d /\ bitlen its = 8 * (2 + emitted d).
+Proof.
+  intros H Hok. destruct (enc_descriptor_shape d its H) as (body & -> & Hb).
+  apply items_bytes_ok_app_inv in Hok. destruct Hok as [Hh Hbody].
+  exists (bytes_of_items body). split; [|split].
+  - rewrite (bytes_of_items_app _ _ 2) by (auto; reflexivity). rewrite bytes_of_two_u8. reflexivity.
+  - apply bytes_of_items_zlen; assumption.
+  - rewrite bitlen_app, Hb. unfold wu8. bl. lia.
+Qed.
+
+(* ---- a loop ---- *)
+
+Definition entry_bytes (d : Descriptor) (body : list Z) : list Z :=
+  [Descriptor_Tag d mod 256; calc_descriptor_length d mod 256] ++ body.
+
+Fixpoint loop_bytes (ds : list Descriptor) (bodies : list (list Z)) : list Z :=
+  match ds, bodies with
+  | d :: ds', b :: bodies' => entry_bytes d b ++ loop_bytes ds' bodies'
+  | _, _ => []
+  end.
+
+Lemma enc_descriptors_bytes ds : forall its, enc_descriptors ds = Ok its -> items_bytes_ok its ->
+  exists bodies, bytes_of_items its = loop_bytes ds bodies /\
+                 Forall2 (fun d b => zlen b = emitted d) ds bodies /\
+                 bitlen its = 8 * sumZ (fun d => 2 + emitted d) ds.
+Proof.
+  induction ds as [|d ds IH]; intros its H Hok.
+  - inversion H; subst. exists []. repeat split; constructor.
+  - cbn [enc_descriptors] in H. destruct (enc_descriptor d) as [a| |] eqn:Ea; cbn [res_bind] in H; try discriminate.
+    destruct (enc_descriptors ds) as [r| |] eqn:Er; cbn [res_map] in H; try discriminate.
+    inversion H; subst. apply items_bytes_ok_app_inv in Hok. destruct Hok as [Hoa Hor].
+    destruct (enc_descriptor_bytes d a Ea Hoa) as (body & Eb & Hl & Hbits).
+    destruct (IH r eq_refl Hor) as (bodies & Ebs & HF & Hbits').
+    exists (body :: bodies). split; [|split].
+    + rewrite (bytes_of_items_app _ _ (2 + emitted d)) by assumption. rewrite Eb, Ebs. reflexivity.
+    + constructor; assumption.
+    + rewrite bitlen_app, Hbits, Hbits'. cbn [sumZ fold_right]. unfold sumZ. lia.
+Qed.
+
+(* calcDescriptorsLength without wrap *)
+Lemma calc_descriptors_length_nowrap ds : Forall (fun d => desc_size d < 256) ds -> loop_size ds < 65536 ->
+  calc_descriptors_length ds = loop_size ds.
+Proof.
+  unfold calc_descriptors_length, loop_size.
+  assert (G : forall ds a, Forall (fun d => desc_size d < 256) ds -> 0 <= a -> a + sumZ (fun d => 2 + desc_size d) ds < 65536 ->
+     fold_left (fun length d => ((length + 2) mod 65536 + calc_descriptor_length d) mod 65536) ds a = a + sumZ (fun d => 2 + desc_size d) ds).
+  { clear. induction ds as [|d ds IH]; intros a HF Ha Hs; [cbn; lia|].
+    inversion HF; subst. cbn [fold_left sumZ fold_right] in *. fold (sumZ (fun d => 2 + desc_size d) ds) in *.
+    pose proof (desc_size_nonneg d). assert (0 <= sumZ (fun d => 2 + desc_size d) ds).
+    { apply sumZ_nonneg. intros x. pose proof (desc_size_nonneg x). lia. }
+    destruct (emitted_nowrap d H1) as [_ Ec]. rewrite Ec.
+    rewrite (Z.mod_small (a + 2)) by lia. rewrite Z.mod_small by lia. rewrite IH by (auto; lia). lia. }
+  intros HF Hs. rewrite G by (auto; lia). lia.
+Qed.
+
+(* C14_len: the loop length and every length byte equal the bytes actually emitted, for arbitrary
+   Descriptor_Length fields, provided no body exceeds 255 bytes and the loop 4095 *)
+Theorem descriptors_with_length_exact ds out :
+  enc_descriptors_with_length ds = Ok out -> items_bytes_ok out ->
+  Forall (fun d => desc_size d < 256) ds -> loop_size ds < 4096 ->
+  let bytes := bytes_of_items out in
+  exists hdr bodies,
+    bytes = hdr ++ loop_bytes ds bodies /\ zlen hdr = 2 /\
+    Forall2 (fun d b => zlen b = calc_descriptor_length d /\ zlen b = desc_size d) ds bodies /\
+    bitsf bytes 4 12 = zlen bytes - 2 /\
+    zlen bytes = 2 + loop_size ds.
+Proof.
+  intros H Hok HF Hs bytes. unfold enc_descriptors_with_length in H.
+  destruct (enc_descriptors ds) as [its| |] eqn:E; cbn [res_map] in H; try discriminate.
+  assert (Eo : out = [WBits 4 255; WBits 12 (calc_descriptors_length ds)] ++ its) by (inversion H; reflexivity).
+  subst out; clear H.
+  apply items_bytes_ok_app_inv in Hok. destruct Hok as [Hoh Hoi].
+  destruct (enc_descriptors_bytes ds its E Hoi) as (bodies & Eb & HF2 & Hbits).
+  assert (Esum : sumZ (fun d => 2 + emitted d) ds = loop_size ds).
+  { unfold loop_size. clear -HF. induction HF as [|d ds Hd _ IH]; [reflexivity|]. cbn [sumZ fold_right]. unfold sumZ in IH. rewrite IH.
+    destruct (emitted_nowrap d Hd) as [-> _]. reflexivity. }
+  assert (Hh : bitlen [WBits 4 255; WBits 12 (calc_descriptors_length ds)] = 8 * 2) by (bl; reflexivity).
+  assert (Hlen : zlen bytes = 2 + loop_size ds).
+  { unfold bytes. apply bytes_of_items_zlen; [apply items_bytes_ok_app; assumption|]. rewrite bitlen_app, Hh, Hbits, Esum. lia. }
+  exists (bytes_of_items [WBits 4 255; WBits 12 (calc_descriptors_length ds)]), bodies.
+  split; [|split; [|split; [|split]]].
+  - unfold bytes. rewrite (bytes_of_items_app _ _ 2) by assumption. rewrite Eb. reflexivity.
+  - apply bytes_of_items_zlen; assumption.
+  - clear -HF HF2. induction HF2 as [|d b ds bodies Hb _ IH]; [constructor|]. inversion HF; subst.
+    constructor; [|apply IH; assumption]. destruct (emitted_nowrap d H1) as [E1 E2]. rewrite E2. lia.
+  - rewrite Hlen. unfold bytes, bitsf.
+    rewrite (bits_of_bytes_of_items _ (2 + loop_size ds)).
+    2:{ apply items_bytes_ok_app; assumption. }
+    2:{ rewrite bitlen_app, Hh, Hbits, Esum. lia. }
+    rewrite items_bits_app. unfold items_bits at 1. cbn [flat_map item_bits]. rewrite app_nil_r, <- app_assoc.
+    rewrite (field_skip 4) by lia. change (4 - 4)%nat with 0%nat. rewrite field_here_mod.
+    pose proof (sumZ_nonneg (fun d => 2 + desc_size d) ds) as Hnn. unfold loop_size in *.
+    rewrite calc_descriptors_length_nowrap by (auto; unfold loop_size; lia). unfold loop_size.
+    rewrite Z.mod_small; [lia|]. split; [apply Hnn; intros x; pose proof (desc_size_nonneg x); lia|]. change (2 ^ Z.of_nat 12) with 4096. lia.
+  - exact Hlen.
+Qed.
